@@ -175,7 +175,9 @@ def gen_world(rng, cfg_name, size=3, prop_version=None, empty=False):
     # --- textures, texdata, texinfo
     w.textures = []
     for _ in range(n()):
-        nm = rng.choice(['brick/wall', 'BRICK/WALL2', 'tools/toolsnodraw', 'a', 'dev/' + 'x' * rng.randrange(0, 100), 'w\udc80\udcff'])
+        # names that are suffixes (legitimately share storage), prefixes and infixes of each other
+        nm = rng.choice(['brick/wall', 'wall', 'brick', 'brick/w', 'all', 'BRICK/WALL2', 'tools/toolsnodraw', 'a', 'ab', 'b',
+                         'dev/' + 'x' * rng.randrange(0, 100), 'w\udc80\udcff'])
         if nm.casefold() not in [t.casefold() for t in w.textures]:
             w.textures.append(nm)
     texdatas = []
@@ -342,6 +344,8 @@ def gen_world(rng, cfg_name, size=3, prop_version=None, empty=False):
     vmf.spawn['mapversion'] = str(rng.randrange(0, 5000))
     vmf.map_ver = int(vmf.spawn['mapversion'])
 
+    w.force_sep = rng.choice([None, None, True, False])     # BSP.out_comma_sep: None keeps each output's own separator
+
     def fill_ent(ent):
         for _ in range(n()):
             k = rand_text(rng, ENT_KEY_ALPHABET, 1, 8).strip() or 'k'
@@ -350,7 +354,7 @@ def gen_world(rng, cfg_name, size=3, prop_version=None, empty=False):
                 continue
             ent[k] = v
         for _ in range(n()):
-            comma = rng.random() < 0.5
+            comma = (rng.random() < 0.5) if w.force_sep is None else w.force_sep
             bad = ',\x1b"\\\n\r\t;' if comma else '\x1b"\\\n\r\t;'
             word = lambda lo_=1: ''.join(c for c in rand_text(rng, ['a', 'Z', '_', '1', ' ', '!', '*', ',', "'"], lo_, 8) if c not in bad) or ('x' if lo_ else '')
             ent.add_out(Output(
@@ -458,6 +462,8 @@ GROWING = {'textures', 'texinfo', 'planes', 'vertexes', 'surfedges', 'primitives
 def assign_world(bsp, w, views=None):
     from srctools.bsp import StaticPropVersion
     for v in (views or VIEWS):
+        if v == 'ents':
+            bsp.out_comma_sep = w.force_sep
         if v == 'bmodels':
             if w.bmodels is not None:
                 bsp.bmodels = w.bmodels
